@@ -25,7 +25,8 @@ number is "not implemented").
   latch observable.  Cell 0 holds the last accessible location.
 * Deviations used by C10 (a conforming unit has `advance = true`,
   `unlockValue = 0x55`): a unit that does not advance DTR0, a unit that
-  unlocks with another value; "shorter bank" is just a smaller `last`.
+  unlocks with another value; "shorter bank" is just a smaller `last`; a unit
+  that fails to advance DTR0 on selected frames only (`stepStall`, `stepSched`).
 -/
 namespace DaliVerif.DevMem
 
@@ -167,6 +168,22 @@ def exec (u : MemUnit) : Cmd → Resp × MemUnit
 
 def step (u : MemUnit) (c : Cmd) : Resp × MemUnit :=
   ((u.exec c).1, { (u.exec c).2 with clock := u.clock + 1 })
+
+/-- Deviation "does not advance DTR0 on this one frame" (C10): for the frames
+selected by `stall` the unit behaves as a non-advancing unit (the cell is still
+read / written and answered as usual, only DTR0 stays where it was); on every
+other frame it is the unit it was.  A unit that never advances is the special
+case `advance = false` / `stall` always true. -/
+def stepStall (u : MemUnit) (stall : Bool) (c : Cmd) : Resp × MemUnit :=
+  if stall then
+    (({ u with advance := false }).step c |>.1,
+      { ({ u with advance := false }).step c |>.2 with advance := u.advance })
+  else u.step c
+
+/-- a unit together with the number of frames it has seen; `sched k` says whether
+the `k`-th frame (from 0) is one on which DTR0 is not advanced -/
+def stepSched (sched : Nat → Bool) (s : MemUnit × Nat) (c : Cmd) : Resp × (MemUnit × Nat) :=
+  ((s.1.stepStall (sched s.2) c).1, ((s.1.stepStall (sched s.2) c).2, s.2 + 1))
 
 /-- conforming unit (no C10 deviation) -/
 def Conforming (u : MemUnit) : Prop := u.advance = true ∧ u.unlockValue = 0x55
